@@ -24,7 +24,8 @@ MANIFEST = {
     "technique": "Lean 4 proofs (monotonicity + idempotence of the adapter model by double structural induction) + differential correspondence of the "
                  "second pass and of serialisation + fixed-point oracle on the real parser",
     "text": "Theorems in lean/Jap/Props/C10.lean prove, for every loader oracle, that adapting an adapted value returns it unchanged on the sub-grammar "
-            "without Any/Set/non-string Literal inside Union members (with machine-checked counterexamples for each excluded construct) and that a result "
+            "without Any/Set/Dict[int,_]/non-string Literal/restricted number types/registered types inside Union members (restricted string types "
+            "allowed; machine-checked counterexamples for each excluded construct) and that a result "
             "is always accepted again on the whole grammar; these lift to the entry points: for values that are not strings `_check_type` is the "
             "adapter, its result is a fixed point of `_check_type`, the validation pass of parse_object never rejects it and parse_object returns it "
             "unchanged (C10_reparse_value / C10_validation_pass_accepts / C10_reparse_object); a result of a restricted string type is a fixed point "
